@@ -131,10 +131,25 @@ def cells(series):
     return [None if model.is_missing(v) else v for v in series.tolist()]
 
 
+def same_cells(got, exp, kind):
+    if got == exp:
+        return True
+    if kind == 'float32_mixed' and len(got) == len(exp):
+        # "plain str()" of a 32-bit float has two readings: of the stored value ('0.1') or of the value
+        # widened to a Python float ('0.10000000149011612', what the pinned code yields); both pass
+        for g, e in zip(got, exp):
+            if g == e:
+                continue
+            if g is None or e is None or g != str(np.float32(float(e))):
+                return False
+        return True
+    return False
+
+
 def check_converted(rec, case, tag, got_series, exp, what):
     got = cells(got_series)
     rec.count('cells_compared', len(exp))
-    if got != exp:
+    if not same_cells(got, exp, case.get('kind')):
         rec.violation('conversion', tag + '%s holds %r, expected %r' % (what, got, exp), case=case)
         return False
     for v in got:
